@@ -719,3 +719,103 @@ def b_trees(tier, seed):
             if not val <= 1e-8:
                 failures.append({"what": f"{what}: assembled initial state violates {key}", "input": {"urdf": xml}, "detail": f"{val:.3e}"})
     return {"cases": cases, "distinct": cases, "failures": failures[:12], "bound": f"{ntrees} generated URDF trees (depth <= 3, branching <= {2 if tier == 'quick' else 3}, all joint types, random origins/axes/inertial frames/configurations/velocities, fixed and floating roots) through the real XML parser and the real System.assemble"}
+
+
+# --------------------------------------------------------------------------- the induction step composes: nothing else is carried
+from vk.registry import static  # noqa: E402
+
+
+def _loop_carried(fn):
+    """names that some loop of `fn` assigns and that one of its iterations may read before assigning them itself - the
+    local state an iteration inherits from the previous one (def-use analysis of the current source; structured control
+    flow: if / for / while / try / with; a branch that ends in continue / break / raise / return does not flow on)"""
+    import ast
+    import inspect
+    import textwrap
+
+    tree = ast.parse(textwrap.dedent(inspect.getsource(fn))).body[0]
+
+    def targets(node):
+        out = set()
+        for t in ast.walk(node):
+            if isinstance(t, ast.Name) and isinstance(t.ctx, (ast.Store, ast.Del)):
+                out.add(t.id)
+        return out
+
+    def reads(expr):
+        return {n.id for n in ast.walk(expr) if isinstance(n, ast.Name) and isinstance(n.ctx, ast.Load)} if expr is not None else set()
+
+    ALL = None  # "every name is defined": the value of a path that does not continue
+
+    def meet(a, b):
+        if a is ALL:
+            return b
+        if b is ALL:
+            return a
+        return a & b
+
+    def run(stmts, defd, assigned, exposed):
+        """returns the set of names definitely assigned after the statements (ALL if control never falls through)"""
+        for st in stmts:
+            if defd is ALL:
+                return ALL
+            if isinstance(st, (ast.Continue, ast.Break, ast.Raise, ast.Return)):
+                for e in ast.iter_child_nodes(st):
+                    exposed |= (reads(e) & assigned) - defd
+                return ALL
+            if isinstance(st, ast.If):
+                exposed |= (reads(st.test) & assigned) - defd
+                a = run(st.body, set(defd), assigned, exposed)
+                b = run(st.orelse, set(defd), assigned, exposed)
+                defd = meet(a, b)
+            elif isinstance(st, (ast.For, ast.While)):
+                exposed |= (reads(st.iter if isinstance(st, ast.For) else st.test) & assigned) - defd
+                inner = set(defd) | (targets(st.target) if isinstance(st, ast.For) else set())
+                run(st.body, inner, assigned, exposed)  # the body may run zero times: nothing it assigns is definite
+                run(st.orelse, set(defd), assigned, exposed)
+            elif isinstance(st, ast.Try):
+                a = run(st.body, set(defd), assigned, exposed)
+                for h in st.handlers:
+                    run(h.body, set(defd), assigned, exposed)
+                defd = meet(a, run(st.finalbody, set(defd), assigned, exposed)) if st.finalbody else (a if a is not ALL else set(defd))
+            elif isinstance(st, ast.With):
+                for it in st.items:
+                    exposed |= (reads(it.context_expr) & assigned) - defd
+                    defd |= targets(it.optional_vars) if it.optional_vars is not None else set()
+                defd = run(st.body, defd, assigned, exposed)
+            elif isinstance(st, ast.AugAssign):
+                exposed |= ((reads(st.value) | targets(st.target)) & assigned) - defd
+                defd |= targets(st.target)
+            elif isinstance(st, (ast.Assign, ast.AnnAssign)):
+                exposed |= (reads(st.value) & assigned) - defd
+                tg = st.targets if isinstance(st, ast.Assign) else [st.target]
+                for t in tg:
+                    # reads inside a target (subscripts, attributes: `child.r_OR = ...` reads `child`)
+                    exposed |= ({n.id for n in ast.walk(t) if isinstance(n, ast.Name) and isinstance(n.ctx, ast.Load)} & assigned) - defd
+                    defd |= targets(t)
+            else:
+                exposed |= (reads(st) & assigned) - defd
+                defd |= targets(st)
+        return defd
+
+    found = {}
+    for loop in [n for n in ast.walk(tree) if isinstance(n, (ast.For, ast.While))]:
+        assigned = set().union(*[targets(s) for s in loop.body]) if loop.body else set()
+        exposed = set()
+        run(loop.body, targets(loop.target) if isinstance(loop, ast.For) else set(), assigned, exposed)
+        found[f"{type(loop).__name__.lower()} loop at line {loop.lineno} of the function"] = sorted(exposed)
+    return found
+
+
+@static("C28", "tree-walk/no local state is carried from one edge to the next")
+def s_no_carried_state(tier):
+    """The recursion-step contracts prove one edge for an arbitrary parent frame; they compose along a tree only if an
+    iteration of the importer's walk takes nothing from the previous iteration except what is stored on the link objects,
+    the queue and the system.  Decided on the current source: no loop of system_from_urdf assigns a local name that one of
+    its iterations may read before assigning it itself."""
+    out = []
+    carried = _loop_carried(U.system_from_urdf)
+    for where, names in carried.items():
+        out.append(dict(name=f"system_from_urdf, {where}: an iteration reads no local name left over from the previous one", ok=not names, backend="ast def-use analysis", show=f"read before assigned: {names}", detail=f"local names assigned in the loop and possibly read before this iteration assigns them: {names}", replay=None if not names else {"loop": where, "carried_names": names}))
+    out.append(dict(name="vacuity guard: the walk has loops", ok=len(carried) >= 2, backend="ast def-use analysis", show=str(list(carried))))
+    return out
